@@ -389,6 +389,8 @@ func (rt *runtime) cmplEvaluateNodeTryStatement(node *nodeTryStatement) Value {
 		tryCatchValue, exep = rt.tryCatchEvaluate(func() Value {
 			return rt.cmplEvaluateNodeStatement(node.catch.body)
 		})
+		// The finally block does not see the catch parameter.
+		rt.scope.lexical = outer
 	}
 
 	if node.finally != nil {
